@@ -523,7 +523,11 @@ def rule_new_records_land_inside_the_count(eng, rep, rule="C17-9.a-record-added-
                     at = [d for d in cfg.defs_reaching(node, pos.id)]
                 else:
                     at = [cfg.cfg_node(node)]
-                is_count = bool(exprs) and all(isinstance(e, ast.Call) and isinstance(e.func, ast.Attribute) and e.func.attr == "npt" and not e.args for e in exprs)
+                # npt() itself, or the expression npt() returns written out (`min(self.num_pts, self.npt_so_far)`)
+                nptf = eng.fn("model.Model.npt")
+                nrets = [r.value for r in eng.prog.own_nodes(nptf) if isinstance(r, ast.Return) and r.value is not None]
+                npt_texts = set(ekey(r).replace(nptf.posparams[0] + ".", sn + ".") for r in nrets) if len(nrets) == 1 else set()
+                is_count = bool(exprs) and all((isinstance(e, ast.Call) and isinstance(e.func, ast.Attribute) and e.func.attr == "npt" and not e.args) or ekey(e) in npt_texts for e in exprs)
                 stale = any(cfg.path_avoiding(c, a, []) is not None for c in counts for a in at)
                 if is_count and not stale:
                     rep.ok(rule, site, "Model.%s: the new row is inserted at npt(), read before the count is increased" % fld)
